@@ -25,7 +25,7 @@ func init() {
 		ID:    "C17",
 		Level: "exploration",
 		Rule: "metadata graphs of 4-40 nodes are generated with a side table (payload string per node, reference lists, distinct flags, sparse explicit IDs, inline nodes, self/forward/cyclic references, attachments on globals, functions and instructions, named metadata defined 1-3 times). Text side: after asm.ParseString every reference slot must be the very object listed under that ID in MetadataDefs and carry the payload of the intended node, distinct and inline/numbered placement must be as written, repeated named metadata must be merged in textual order, and LLVM must read input and printed output alike (canonical form). API side: the same graph built through the Go API with a mix of explicit and unassigned (-1) IDs is printed: definitions must have unique IDs, explicit IDs must be kept, unassigned nodes must get the smallest unused IDs in list order, and the re-parsed module must be structurally identical. The clang -g corpus and the metadata atoms add realistic debug-info graphs: identity census on every reference, and reference conservation - for every ID N the number of `!N` reference tokens in the text must equal the number of edges of the parsed object graph that point at the object listed as !N (no reference dropped, copied into a fresh node, or bound to another object), and the same count for the printed text against the printed graph (no reference spelled out inline). " +
-			"Corpus: two parses of one text share no metadata object; the distinct flag of every numbered definition is conserved between input and output. " +
+			"Corpus: `distinct` is written as often in the printed module as in the input and no reference is printed as `!-1`; every specialised node a metadata atom defines under a number is also tried inline in one more tuple (if LLVM accepts that); two parses of one text share no metadata object; the distinct flag of every numbered definition is conserved between input and output. " +
 			"non-trivial = a graph with at least one forward or cyclic reference; distinct by graph text",
 		Gen:           genC17,
 		MinNontrivial: 100,
@@ -223,6 +223,14 @@ func genC17(ctx *fw.Ctx) []fw.Case {
 		s := s
 		if strings.Contains(s.ID, "-g") {
 			cases = append(cases, fw.Case{ID: s.ID, Run: func(r *fw.Rec) { c17Corpus(r, s) }})
+		}
+	}
+	// every specialised node that an atom defines under a number is also tried inline
+	// (as an element of one more tuple): the same fields, no ID
+	for _, s := range corpus.AtomSources() {
+		if strings.HasPrefix(s.ID, "atom/md/") {
+			s := s
+			cases = append(cases, fw.Case{ID: s.ID + "/inline-variant", Run: func(r *fw.Rec) { c17InlineVariant(r, s) }})
 		}
 	}
 	for _, s := range corpus.AtomSources() {
@@ -645,6 +653,17 @@ func c17Corpus(r *fw.Rec, s corpus.Source) {
 		r.Violate(fw.Violation{Key: "corpus-printed-" + key + "/" + s.ID, Input: text, What: "in the printed module, " + what, Observed: y})
 		return
 	}
+	// `distinct` is written as often in the printed module as in the input (a
+	// node that is inline in the input is never distinct), and no reference is
+	// printed with the ID of an unnumbered node
+	if nx, ny := countDistinct(text), countDistinct(y); nx != ny {
+		r.Violate(fw.Violation{Key: "corpus-distinct-count/" + s.ID, Input: text, What: fmt.Sprintf("the input writes `distinct` %d times, the printed module %d times", nx, ny), Observed: y})
+		return
+	}
+	if strings.Contains(y, "!-1") {
+		r.Violate(fw.Violation{Key: "corpus-unnumbered-reference/" + s.ID, Input: text, What: "the printed module refers to `!-1`: a node without an ID is printed as a reference instead of being spelled out", Observed: y})
+		return
+	}
 	// print and parse back: the metadata graph must be the same (distinct flags,
 	// fields, sharing), judged on the structural serialisation of both modules
 	if m2, e2, p2 := parseGuard(s.ID, y); p2 == "" && e2 == nil {
@@ -713,3 +732,60 @@ func c17RefConservation(text string, m *ir.Module) (key, what string) {
 // reDistinctDef matches a numbered metadata definition line: ID and whether
 // the node is written distinct.
 var reDistinctDef = regexp.MustCompile(`(?m)^!([0-9]+) = (distinct )?!`)
+
+var reDistinctWord = regexp.MustCompile(`\bdistinct !`)
+
+// countDistinct counts the `distinct` keywords of a module text (strings cannot
+// contain the sequence unescaped next to `!{` or `!DI`, names are not followed by " !").
+func countDistinct(text string) int {
+	n := 0
+	for _, line := range strings.Split(text, "\n") {
+		if i := strings.Index(line, ";"); i >= 0 && !strings.Contains(line[:i], "\"") {
+			line = line[:i]
+		}
+		n += len(reDistinctWord.FindAllString(line, -1))
+	}
+	return n
+}
+
+var reSpecializedDef = regexp.MustCompile(`(?m)^!([0-9]+) = (?:distinct )?(!(?:DI[A-Za-z]+|GenericDINode)\(.*\))$`)
+
+// c17InlineVariant appends to a metadata atom one tuple that holds an inline
+// copy of every specialised node the atom defines (compile units must be
+// distinct and are left out) and runs the corpus checks on the result, if LLVM
+// accepts it.
+func c17InlineVariant(r *fw.Rec, s corpus.Source) {
+	text, err := s.Text()
+	if err != nil {
+		return
+	}
+	var inl []string
+	for _, m := range reSpecializedDef.FindAllStringSubmatch(text, -1) {
+		if strings.HasPrefix(m[2], "!DICompileUnit(") {
+			continue
+		}
+		inl = append(inl, m[2])
+	}
+	if len(inl) == 0 {
+		return
+	}
+	try := func(nodes []string, tag string) bool {
+		v := strings.TrimRight(text, "\n") + "\n!verif.inline = !{!987650}\n!987650 = !{" + strings.Join(nodes, ", ") + "}\n"
+		ok, _, err := llvmref.Accepts(v)
+		if err != nil || !ok {
+			return false
+		}
+		c17Corpus(r, corpus.Source{ID: s.ID + "/inline-variant" + tag, Text: func() (string, error) { return v, nil }})
+		r.TallyN("inline_variants", "nodes-tried-inline", len(nodes))
+		return true
+	}
+	if try(inl, "") {
+		return
+	}
+	// some node cannot stand inline (LLVM's verdict): one variant per node
+	for i, n := range inl {
+		if !try([]string{n}, fmt.Sprintf("/%d", i)) {
+			r.Tally("inline_variants", "not-valid-inline-for-llvm")
+		}
+	}
+}
